@@ -15,7 +15,10 @@ RULE = ("frames x cuttings: structured streams of encoded frames (payload length
         "the real server.main's start (synchronisation string through the real TextIOWrapper/BufferedWriter layering of sys.stdout, "
         "first messages and PONGs through the real Mux/runonce) on a raw descriptor 1 that takes 1..13 bytes per write / per first "
         "write / random scripts incl. would-block: the stream on descriptor 1 is the complete string followed by whole messages "
-        "(judged by byte comparison and by the model's hs_spec + decode)")
+        "(judged by byte comparison and by the model's hs_spec + decode); the real client._main on the real ssh.connect (ssh process "
+        "absent) with recording tunnel files, server bytes delivered whole / byte by byte / cut at random: nothing is written after "
+        "the two uploads until the client's last handshake read, nothing at all when it rejects the string (implementation only); "
+        "every sender script also with the pipe writable while messages are queued: nothing reaches the pipe outside Mux.flush")
 TRUSTED_BASE = [
     "modelled, not verified: CPython struct.pack/unpack('!ccHHH'), bytes slicing, list.append; raw socket-file read(n) returns 1..n bytes (b'' at EOF), non-blocking write returns None/0..len",
     "the fake rfile/wfile objects of harness/props/c07.py stand for the ssh pipe",
@@ -136,12 +139,24 @@ def impl_rx_end(ssnet, chunks, err=None):
     return "%s %s | %s %d" % (status, fr, hx(bytes(m.inbuf)), m.want), end
 
 
-def impl_tx(ssnet, ops):
+def impl_tx(ssnet, ops, probe=None):
+    """probe (a list): the pipe is WRITABLE while a message is being queued (as the ssh pipe normally is); every byte
+    that reaches the pipe during Mux.send / got_packet — outside Mux.flush, which only the main loop calls — is
+    recorded there as (index of the operation, bytes).  On code that only queues this changes nothing."""
     w = FakeW()
+    if probe is not None:
+        w.script = [10 ** 9]
     m = ssnet.Mux(FakeR([]), w)
+    if probe is not None:
+        if w.wire:
+            probe.append((-1, w.wire))     # the constructor itself wrote (its PING) — before any handshake
+        w.wire, w.script = b"", []
     m.outbuf = []          # drop the constructor's PING; scripts start from an empty queue
     nsent = 0
-    for op in ops:
+    for n, op in enumerate(ops):
+        before, keep = len(w.wire), w.script
+        if probe is not None and op[0] in "SG":
+            w.script = [10 ** 9]
         if op[0] == "S":
             try:
                 m.send(op[1], op[2], op[3])
@@ -152,6 +167,12 @@ def impl_tx(ssnet, ops):
             # a PING from the peer is handled between two flushes: the PONG is queued by the real got_packet
             m.got_packet(0, 0x4201, op[1])
             nsent += 1
+        if probe is not None and op[0] in "SG":
+            if len(w.wire) > before:
+                probe.append((n, w.wire[before:]))
+            w.script = keep
+        if op[0] in "SG":
+            continue
         else:
             w.script = [op[1]]
             m.flush()
@@ -174,6 +195,24 @@ def impl_enc(ssnet, ch, cmd, data):
 
 class StopLoop(Exception):
     pass
+
+
+def ops_str(ops):
+    return " ".join(("G:" + hx(o[1])) if o[0] == "G" else ("S:%d:%d:%s" % (o[1], o[2], hx(o[3])) if o[0] == "S" else "F:%s" % o[1])
+                    for o in ops)
+
+
+def ops_parse(txt):
+    ops = []
+    for t in txt.split():
+        f = t.split(":")
+        if f[0] == "G":
+            ops.append(("G", bytes.fromhex(f[1]) if f[1] != "-" else b""))
+        elif f[0] == "S":
+            ops.append(("S", int(f[1]), int(f[2]), bytes.fromhex(f[3]) if f[3] != "-" else b""))
+        else:
+            ops.append(("F", None if f[1] == "None" else int(f[1])))
+    return ops
 
 
 def impl_hs(chunks):
@@ -227,6 +266,179 @@ def impl_hs(chunks):
         ssh.connect, ssnet.runonce, helpers.log, client.log = old
         sys.stdout = so
     return "RETURNED"
+
+
+def client_start_run(chunks):
+    """The real client._main from its first line to the main loop on the REAL ssh.connect (only the ssh process is
+    absent: Popen is a stub that leaves us the far end of the socket pair), with the two tunnel file objects that
+    ssh.connect returns wrapped in recorders.  The server's bytes are delivered piece by piece: the next piece is
+    sent only when the client asks for more than has arrived, the stream is closed after the last.  Returns
+    (outcome, events, info): events = ("r", bytes) / ("w", bytes) in program order from the moment ssh.connect has
+    returned — i.e. after the two uploads, which are taken off the far end and counted in info["upload_bytes"]."""
+    import select
+    import socket
+    import types
+    import sshuttle.client as client
+    import sshuttle.ssnet as ssnet
+    import sshuttle.ssh as ssh
+    import sshuttle.helpers as helpers
+    keep, ev = [], []
+    st = {"chunks": [bytes(c) for c in chunks if c], "peer": None, "closed": False, "upload_bytes": 0}
+
+    class FakePopen(object):
+        pid = 4242
+
+        def __init__(self, argv, stdin=None, stdout=None, **kw):
+            keep.append(os.dup(stdin))
+
+        def poll(self):
+            return None
+
+    class Rec(object):
+        def __init__(self, real):
+            self.real = real
+
+        def fileno(self):
+            return self.real.fileno()
+
+        def flush(self):
+            pass
+
+        def close(self):
+            self.real.close()
+
+    class RecR(Rec):
+        def read(self, n=-1):
+            if not select.select([self.real], [], [], 0)[0]:
+                if st["chunks"]:
+                    st["peer"].sendall(st["chunks"].pop(0))
+                elif not st["closed"]:
+                    st["peer"].shutdown(socket.SHUT_WR)
+                    st["closed"] = True
+            d = self.real.read(n)
+            ev.append(("r", bytes(d or b"")))
+            return d
+
+    class RecW(Rec):
+        def write(self, b):
+            ev.append(("w", bytes(b)))
+            return self.real.write(b)
+
+    real_connect = ssh.connect
+
+    def connect(*a, **k):
+        p, rf, wf = real_connect(*a, **k)
+        peer = st["peer"] = socket.socket(fileno=keep.pop())
+        peer.setblocking(False)
+        try:
+            while True:
+                d = peer.recv(1 << 16)
+                if not d:
+                    break
+                st["upload_bytes"] += len(d)
+        except (BlockingIOError, InterruptedError):
+            pass
+        peer.setblocking(True)
+        st["files"] = (rf, wf)
+        return p, RecR(rf), RecW(wf)
+
+    class L:
+        v4 = object()
+        v6 = None
+
+        def add_handler(self, *a):
+            pass
+
+    class FW:
+        method = None
+        auto_nets = []
+
+    def stop(handlers, mux):
+        st["queued_at_loop"] = b"".join(bytes(b) for b in mux.outbuf)
+        ev.append(("loop", b""))
+        mux.flush()                 # what the loop does first when the pipe is writable (shows that writes ARE recorded)
+        raise StopLoop()
+    old = (ssh.connect, ssh.ssubprocess, ssnet.runonce, helpers.log, client.log)
+    ssh.ssubprocess = types.SimpleNamespace(Popen=FakePopen, PIPE=getattr(old[1], "PIPE", -1))
+    ssh.connect = connect
+    ssnet.runonce = stop
+    client.log = helpers.log = lambda s: None
+    so = sys.stdout
+    try:
+        try:
+            client._main(L(), None, FW(), None, "remote.example", None, False, 0, None, None, False, False,
+                         False, None, False, None)
+            outcome = "RETURNED"
+        except StopLoop:
+            outcome = "1"
+        except helpers.Fatal as e:
+            outcome = "0" if "expected server init string" in str(e) else "FATAL %s" % str(e)[:80]
+        except Exception as e:
+            outcome = "EXC %s" % type(e).__name__
+    finally:
+        ssh.connect, ssh.ssubprocess, ssnet.runonce, helpers.log, client.log = old
+        sys.stdout = so
+        for f in list(st.get("files", ())) + [st["peer"]]:
+            try:
+                f and f.close()
+            except Exception:
+                pass
+        for fd in keep:
+            try:
+                os.close(fd)
+            except OSError:
+                pass
+    return outcome, ev, st
+
+
+def client_start_judge(outcome, ev):
+    """C07: nothing but the uploads is written before the synchronisation string is verified.  The client reads the
+    tunnel for the last time (inside _main, before its loop) when it completes — or gives up on — that string, so every
+    write that precedes its last read went out before the string was verified; and a client that rejects the string
+    must not have written at all."""
+    reads = [i for i, (k, _) in enumerate(ev) if k == "r"]
+    loop = next((i for i, (k, _) in enumerate(ev) if k == "loop"), len(ev))
+    last = reads[-1] if reads else -1
+    early = [(i, d) for i, (k, d) in enumerate(ev) if k == "w" and (i < last or (outcome != "1" and i < loop))]
+    if not early:
+        return None
+    i, d = early[0]
+    got = b"".join(x for k, x in ev[:i] if k == "r")
+    return ("the client wrote to the tunnel before it had verified the server's synchronisation string: only the two "
+            "uploads of ssh.connect may go out before it — the server's start-up reader is still reading the uploaded "
+            "modules through a buffer and swallows whatever follows them, whole or in part depending on the read "
+            "boundaries (the server's multiplexer then misses the message or dies on half a header)",
+            {"written_too_early_hex": d.hex()[:200], "bytes_written_too_early": sum(len(x) for _, x in early),
+             "bytes_of_the_server_read_before_that_write_hex": got.hex()[:80],
+             "handshake_outcome": {"1": "accepted", "0": "rejected"}.get(outcome, outcome)})
+
+
+def client_start_check(ctx, streams):
+    """implementation only: see client_start_run / client_start_judge"""
+    rng = ctx.rng
+    for s in streams:
+        cuts = [[s], [s[i:i + 1] for i in range(len(s))]]
+        for _ in range(3 if ctx.quick() else 12):
+            if len(s) > 1:
+                i = rng.randint(1, len(s) - 1)
+                cuts.append([s[:i], s[i:]])
+        for chunks in cuts:
+            outcome, ev, st = client_start_run(chunks)
+            ctx.case(("client-start", s, tuple(chunks)), nontrivial=True)
+            ctx.count("client_start_runs")
+            ctx.count("client_start_outcome_%s" % outcome.split(" ")[0])
+            if st["upload_bytes"]:
+                ctx.count("client_start_runs_with_upload_seen")
+            if outcome == "1" and any(k == "w" for k, _ in ev):
+                ctx.count("client_start_first_flush_recorded")
+            bad = client_start_judge(outcome, ev)
+            if bad:
+                ctx.violation(bad[0], {"client_start": {"deliveries": [c.hex() for c in chunks]},
+                                       "detail": dict(bad[1], upload_bytes=st["upload_bytes"])})
+            ref = impl_hs([c for c in chunks if c]).split(" ")[0]
+            if ref != outcome.split(" ")[0]:
+                ctx.disagree("client start: outcome on the real ssh.connect differs from the outcome on scripted files",
+                             [c.hex() for c in chunks], outcome, ref)
 
 
 def encode_py(ch, cmd, data):
@@ -775,6 +987,16 @@ def correspondence(ctx):
                 ctx.count("tx_flush_" + ("eagain" if k is None else "zero" if k == 0 else "partial"))
         lines.append("TX " + " ".join(txt))
         impl.append(impl_tx(ssnet, ops))
+        probe = []
+        impl_tx(ssnet, ops, probe)
+        ctx.count("tx_scripts_with_writable_pipe_while_queueing")
+        if probe:
+            ctx.violation("queueing a message wrote to the tunnel (Mux.send / the constructor's PING put bytes on a writable pipe "
+                          "themselves; only Mux.flush, called from the main loop, may write): a message queued before the "
+                          "start-up handshake is over then reaches the server's start-up reader behind the uploads",
+                          {"tx_probe": "" if probe[0][0] < 0 else ops_str(ops[:probe[0][0] + 1]),
+                           "detail": {"operation_index": probe[0][0], "bytes_written_hex": probe[0][1].hex()[:200],
+                                      "operation": "the constructor" if probe[0][0] < 0 else ops_str([ops[probe[0][0]]])[:200]}})
         sent_frames = [t.split(":") for t in txt if t.startswith("S:")]
         sent_ok = [(int(c), int(k), bytes.fromhex(h) if h != "-" else b"") for _, c, k, h in sent_frames
                    if int(c) <= 65535 and len(h) // 2 <= 65535]
@@ -785,7 +1007,7 @@ def correspondence(ctx):
         want = "OK %s | - 0" % ";".join("%d,%d,%s" % (c, k, hx(d)) for c, k, d in sent_ok)
         if got != want:
             ctx.violation("messages decoded from the pipe are not the messages sent, in order (partial writes interleaved with sends)",
-                          {"ops": " ".join(("G:" + hx(o[1])) if o[0] == "G" else ("S:%d:%d:%s" % (o[1], o[2], hx(o[3])) if o[0] == "S" else "F:%s" % o[1]) for o in ops)[:1500],
+                          {"ops": ops_str(ops)[:1500],
                            "decoded": got[:400], "expected": want[:400]})
     out = ctx.run_driver(lines)
     for ln, i, o in zip(lines, impl, out):
@@ -798,6 +1020,9 @@ def correspondence(ctx):
     sync = b"\0\0SSHUTTLE0001"
     streams = [sync + b"\x53\x53rest", b"noise\0more\0SSHUTTLE0001", sync, b"\0\0SSHUTTLE0002" + b"zz",
                b"\0\0SSHUTTLE000", b"\0SSHUTTLE0001\0", b"", b"abc"]
+    t0 = time.time()
+    client_start_check(ctx, streams)
+    ctx.extra["client_start_check_wall_s"] = round(time.time() - t0, 2)
     lines, impl, descr = [], [], []
     for s in streams:
         cuts = list(cuttings(len(s))) if len(s) <= 11 else None
@@ -841,6 +1066,17 @@ def replay(ctx, rp):
         bad = server_start_judge(sce, wire, sent, how)
         print("server start:", bad and bad[0], "| first bytes on descriptor 1:", wire[:40])
         return bad is not None
+    if "client_start" in r:
+        chunks = [bytes.fromhex(c) for c in r["client_start"]["deliveries"]]
+        outcome, ev, st = client_start_run(chunks)
+        bad = client_start_judge(outcome, ev)
+        print("client start:", outcome, "|", bad and bad[0][:120], bad and bad[1])
+        return bad is not None
+    if "tx_probe" in r:
+        probe = []
+        impl_tx(ssnet, ops_parse(r["tx_probe"]), probe)
+        print("bytes written while queueing:", [(n, d.hex()[:60]) for n, d in probe][:5])
+        return bool(probe)
     if "deliveries" in r:
         chunks = [bytes.fromhex(c) for c in r["deliveries"] if c != "-"]
         got = impl_hs(chunks)
